@@ -41,7 +41,8 @@ block = ('<!-- SEEDS -->\n### Seeded changes (independent sub-agents, property t
          'stable tests, and comes with a demonstration that fails with the change and passes without it (`seeded/<id>-<k>/`). Confirmed and run '
          'with `tools/seedcheck.py` (scratch worktree + `VERIF_REPO=<worktree> ./check <ID>`); `tools/seedsweep.py` re-runs all of them against '
          'the current machinery. Rounds: k=1,2 obvious edits in the anchored code; k=3,4 less central paths; k=5,6 code OUTSIDE the anchored '
-         'functions that the guarantee depends on. "input" = VIOLATION with a concrete failing input, "no-input" = VIOLATION ... '
+         'functions that the guarantee depends on; k=9,10 cooperating edits / error handling / boundaries; k=11,12 well-meant '
+         'improvements; k=15,16 coverage-guided (behaviour no existing test touches). "input" = VIOLATION with a concrete failing input, "no-input" = VIOLATION ... '
          'no-failing-input-found, "MISSED" = the check stayed quiet.\n\n'
          '| seed | change | needs | first run | now |\n|---|---|---|---|---|\n' + '\n'.join(rows) + '\n\n'
          '### Harmless refactorings (false-alarm test)\n\n'
